@@ -10,6 +10,7 @@ from ..engine.mutate import Mutant, Variant, in_function, replace_once
 from ..engine.runner import Rule
 from ..engine.source import AnalysisError
 from ..engine.sqlfront import all_where_clauses, split_conjuncts
+from . import shared
 from .common import callee_name, calls_in, kwarg
 
 EXPLANATION = (
@@ -68,7 +69,7 @@ def rule_same_reactions(ctx):
               f"watch side selects nglob_registrations{a}, restart side nglob_registrations{b}: a pattern of a detached step is refreshed by a restart but not by a watch-mode rebuild (or the reverse)", f"both: {a}")
     sb = ctx.prog.func("director.DirectorHandler.start_build_phase")
     src = _norm(ast.unparse(sb.node))
-    ctx.check("for step in self.workflow.steps(StepState.FAILED): self.workflow.mark_step_pending(step)" in src, sb.fq, "rebuild retries FAILED steps like reset_interrupted_steps does", "failed steps are not retried on a watch-mode rebuild", "same as restart")
+    shared.check_failed_steps_retried(ctx, "a detached FAILED step is retried by one side only: a watch-mode rebuild and a restart end with different states")
     ctx.check(src.index("self.watcher.end_watching.set()") < src.index("wait_for_any_event(self.watcher.done_watching, self.stop_event)") < src.index("self.builder.resume.set()"), sb.fq, "the builder resumes only after the watcher has applied its changes", "the build can start before the observed changes are applied", "end_watching -> done_watching -> resume")
     w = ctx.prog.func("watcher.Watcher.run_once")
     causes = {ast.unparse(n) for n in ast.walk(w.node) if isinstance(n, ast.Attribute) and isinstance(n.value, ast.Name) and n.value.id == "HashUpdateCause"}
@@ -222,11 +223,12 @@ RULES = [
 ]
 
 MUTANTS = [
+    Mutant("rebuild-retries-attached-only", "director.py", in_function("DirectorHandler.start_build_phase", replace_once("self.workflow.steps(StepState.FAILED, include_detached=True)", "self.workflow.steps(StepState.FAILED)")), ("R-C14-1",)),
     Mutant("resume-watches-static-only", "startup.py", in_function("watch_known_dirs", replace_once('f"file.state != {FileState.VOLATILE.value}"', 'f"file.state IN ({FileState.UNCONFIRMED.value}, {FileState.CONFIRMED.value}, {FileState.MISSING.value})"')), ("R-C14-4",)),
     Mutant("pending-watch-one-level", "watcher.py", in_function("AsyncInotifyWrapper.dir_loop", replace_once("            while not (path.is_dir() or path.name == \"..\" or path in (\"\", \".\")):\n                self.watches.setdefault(path, None)\n                path = path.parent\n", "            if not path.is_dir():\n                self.watches.setdefault(path, None)\n            while not (path.is_dir() or path.name == \"..\" or path in (\"\", \".\")):\n                path = path.parent\n")), ("R-C14-4",)),
     Mutant("watch-globs-attached-only", "workflow.py", in_function("Workflow.process_nglob_changes", replace_once("self.nglob_registrations(include_detached=True)", "self.nglob_registrations()")), ("R-C14-1",)),
     Mutant("no-glob-reaction", "watcher.py", in_function("Watcher.run_once", replace_once("            self.workflow.process_nglob_changes(self.deleted, self.updated)\n", "            pass\n")), ("R-C14-1", "R-C14-3")),
-    Mutant("rebuild-no-retry", "director.py", in_function("DirectorHandler.start_build_phase", lambda s: s.replace("            for step in self.workflow.steps(StepState.FAILED):\n                self.workflow.mark_step_pending(step)\n", "            pass\n") if "self.workflow.mark_step_pending(step)" in s else None), ("R-C14-1",)),
+    Mutant("rebuild-no-retry", "director.py", in_function("DirectorHandler.start_build_phase", lambda s: s.replace("            for step in self.workflow.steps(StepState.FAILED, include_detached=True):\n                self.workflow.mark_step_pending(step)\n", "            pass\n") if "self.workflow.mark_step_pending(step)" in s else None), ("R-C14-1",)),
     Mutant("rescan-skips-built", "startup.py", replace_once("data = (FileState.PLANNED.value, FileState.VOLATILE.value)", "data = (FileState.PLANNED.value, FileState.BUILT.value)"), ("R-C14-2",)),
     Mutant("relevant-drops-outdated", "workflow.py", replace_once("_RELEVANT_STATES = frozenset(FileState) - {FileState.PLANNED, FileState.VOLATILE}", "_RELEVANT_STATES = frozenset(FileState) - {FileState.PLANNED, FileState.VOLATILE, FileState.OUTDATED}"), ("R-C14-2",)),
     Mutant("opposite-event-dropped", "watcher.py", in_function("Watcher.record_change", lambda s: s.replace("if change == Change.DELETED and path not in self.deleted:", "if change == Change.DELETED and path not in self.deleted and path not in self.updated:", 1) if "if change == Change.DELETED and path not in self.deleted:" in s else None), ("R-C14-3",)),
